@@ -141,20 +141,21 @@ static void parseReport(const std::string &report, GenRun &r)
             } else {
                 r.variableInfo.push_back(row);
             }
-        } else if (tag == "VAL") {
+        } else if (tag == "VAL" || tag == "VAL2") {
             std::string kind;
             long idx;
             std::string v;
             ls >> kind >> idx >> v;
             double d = (v == "nan" || v == "-nan") ? NAN : strtod(v.c_str(), nullptr);
-            auto &vec = kind == "S" ? r.states : (kind == "R" ? r.rates : r.variables);
+            bool second = tag == "VAL2";
+            auto &vec = kind == "S" ? (second ? r.states2 : r.states) : (kind == "R" ? (second ? r.rates2 : r.rates) : (second ? r.variables2 : r.variables));
             if (static_cast<long>(vec.size()) <= idx) {
                 vec.resize(static_cast<size_t>(idx + 1), NAN);
             }
             vec[static_cast<size_t>(idx)] = d;
         } else if (tag == "EXT") {
             ExtCall c;
-            ls >> c.index;
+            ls >> c.phase >> c.index;
             int k;
             while (ls >> k) {
                 c.definedVariables.push_back(k);
@@ -170,7 +171,7 @@ static void parseReport(const std::string &report, GenRun &r)
     }
 }
 
-GenRun runGeneratedC(const std::string &header, const std::string &impl)
+GenRun runGeneratedC(const std::string &header, const std::string &impl, const ExtPlan *plan)
 {
     GenRun r;
     char tmpl[] = "/tmp/vgenXXXXXX";
@@ -188,15 +189,22 @@ GenRun runGeneratedC(const std::string &header, const std::string &impl)
     std::string pVars = paramsOf(header, "computeVariables");
     std::ostringstream m;
     m << "#include \"model.h\"\n#include <math.h>\n#include <stdio.h>\n#include <string.h>\n#include <stdlib.h>\n";
-    m << "static double *gStates = 0, *gRates = 0, *gVariables = 0;\n";
+    m << "static double *gStates = 0, *gRates = 0, *gVariables = 0;\nstatic int gPhase = 0, gStep = 0;\n";
     if (ext) {
         std::string sig = ode ? "double voi, double *states, double *rates, double *variables, size_t index" : "double *variables, size_t index";
-        m << "static double ext(" << sig << ")\n{\n    printf(\"EXT %zu\", index);\n"
+        m << "static double ext(" << sig << ")\n{\n    printf(\"EXT %d %zu\", gPhase, index);\n"
           << "    for (size_t i = 0; i < VARIABLE_COUNT; ++i) if (!isnan(variables[i])) printf(\" %zu\", i);\n";
         if (ode) {
             m << "    for (size_t i = 0; i < STATE_COUNT; ++i) if (!isnan(states[i])) printf(\" %d\", -1 - (int) i);\n    (void) voi; (void) rates;\n";
         }
-        m << "    printf(\"\\n\");\n    return 100.0 + (double) index;\n}\n";
+        m << "    printf(\"\\n\");\n";
+        if (plan) {
+            m.precision(17);
+            for (auto &kv : plan->values) {
+                m << "    if (index == " << kv.first << ") return gStep ? " << kv.second[1] << " : " << kv.second[0] << ";\n";
+            }
+        }
+        m << "    return 100.0 + (double) index;\n}\n";
     }
     if (nla) {
         // Newton iteration with a finite-difference Jacobian and Gaussian elimination (systems here have n <= 8)
@@ -218,26 +226,40 @@ GenRun runGeneratedC(const std::string &header, const std::string &impl)
     m << "int main(void)\n{\n";
     if (ode) {
         m << "    printf(\"COUNT state %zu\\n\", STATE_COUNT);\n    info(\"voi\", 0, &VOI_INFO);\n    for (size_t i = 0; i < STATE_COUNT; ++i) info(\"state\", i, &STATE_INFO[i]);\n";
-        m << "    double *states = createStatesArray();\n    double *rates = createStatesArray();\n    gStates = states; gRates = rates;\n";
+        m << "    double *states = createStatesArray();\n    double *rates = createStatesArray();\n    gStates = states; gRates = rates;\n"
+             "    for (size_t i = 0; i < STATE_COUNT; ++i) states[i] = rates[i] = NAN;\n";
     }
     m << "    printf(\"COUNT variable %zu\\n\", VARIABLE_COUNT);\n    for (size_t i = 0; i < VARIABLE_COUNT; ++i) info(\"variable\", i, &VARIABLE_INFO[i]);\n";
-    m << "    double *variables = createVariablesArray();\n    gVariables = variables;\n";
+    m << "    double *variables = createVariablesArray();\n    gVariables = variables;\n    for (size_t i = 0; i < VARIABLE_COUNT; ++i) variables[i] = NAN;\n";
     if (pInit != "<absent>") {
-        m << "    initialiseVariables(" << callArgs(pInit) << ");\n";
+        m << "    gPhase = 0;\n    initialiseVariables(" << callArgs(pInit) << ");\n";
     }
     if (pCC != "<absent>") {
         m << "    computeComputedConstants(" << callArgs(pCC) << ");\n";
     }
     if (pRates != "<absent>") {
-        m << "    computeRates(" << callArgs(pRates) << ");\n";
+        m << "    gPhase = 2;\n    computeRates(" << callArgs(pRates) << ");\n";
     }
     if (pVars != "<absent>") {
-        m << "    computeVariables(" << callArgs(pVars) << ");\n";
+        m << "    gPhase = 3;\n    computeVariables(" << callArgs(pVars) << ");\n";
     }
     if (ode) {
         m << "    for (size_t i = 0; i < STATE_COUNT; ++i) { printf(\"VAL S %zu %.17g\\n\", i, states[i]); printf(\"VAL R %zu %.17g\\n\", i, rates[i]); }\n";
     }
     m << "    for (size_t i = 0; i < VARIABLE_COUNT; ++i) printf(\"VAL V %zu %.17g\\n\", i, variables[i]);\n";
+    if (plan && ext) { // second step: the callback now returns its second value set; everything that depends on it must follow
+        m << "    gStep = 1;\n";
+        if (pRates != "<absent>") {
+            m << "    gPhase = 4;\n    computeRates(" << callArgs(pRates) << ");\n";
+        }
+        if (pVars != "<absent>") {
+            m << "    gPhase = 5;\n    computeVariables(" << callArgs(pVars) << ");\n";
+        }
+        if (ode) {
+            m << "    for (size_t i = 0; i < STATE_COUNT; ++i) { printf(\"VAL2 S %zu %.17g\\n\", i, states[i]); printf(\"VAL2 R %zu %.17g\\n\", i, rates[i]); }\n";
+        }
+        m << "    for (size_t i = 0; i < VARIABLE_COUNT; ++i) printf(\"VAL2 V %zu %.17g\\n\", i, variables[i]);\n";
+    }
     m << "    deleteArray(variables);\n";
     if (ode) {
         m << "    deleteArray(states);\n    deleteArray(rates);\n";
@@ -277,7 +299,7 @@ GenRun runGeneratedC(const std::string &header, const std::string &impl)
     return r;
 }
 
-GenRun runGeneratedPython(const std::string &impl)
+GenRun runGeneratedPython(const std::string &impl, const ExtPlan *plan)
 {
     GenRun r;
     char tmpl[] = "/tmp/vgpyXXXXXX";
@@ -323,9 +345,24 @@ def nla_solve(f, u, n, data):
         print("RES %.17g" % abs(x))
     return u
 )PY";
+    {
+        std::ostringstream pl;
+        pl.precision(17);
+        pl << "PLAN = {";
+        if (plan) {
+            for (auto &kv : plan->values) {
+                pl << kv.first << ": (" << kv.second[0] << ", " << kv.second[1] << "), ";
+            }
+        }
+        pl << "}\nHAS_PLAN = " << (plan ? "True" : "False") << "\n";
+        std::ofstream(dir + "/plan.py") << pl.str();
+    }
     std::ofstream(dir + "/main.py") << R"PY(
 import inspect, math, sys
 import model
+from plan import PLAN, HAS_PLAN
+phase = 0
+step = 0
 def fmt(x):
     return "nan" if isinstance(x, float) and math.isnan(x) else "%.17g" % x
 def info(kind, i, v):
@@ -346,27 +383,44 @@ variables = model.create_variables_array()
 def ext(*a):
     index = a[-1]
     vs = a[-2]
-    line = "EXT %d" % index + "".join(" %d" % i for i, x in enumerate(vs) if not math.isnan(x))
+    line = "EXT %d %d" % (phase, index) + "".join(" %d" % i for i, x in enumerate(vs) if not math.isnan(x))
     if ode:
         line += "".join(" %d" % (-1 - i) for i, x in enumerate(a[1]) if not math.isnan(x))
     print(line)
+    if index in PLAN:
+        return PLAN[index][step]
     return 100.0 + index
-def call(name):
+used_ext = False
+def call(name, ph):
+    global phase, used_ext
+    phase = ph
     f = getattr(model, name, None)
     if f is None:
         return
+    if "external_variable" in inspect.signature(f).parameters:
+        used_ext = True
     args = []
     for p in inspect.signature(f).parameters:
         args.append({"voi": 0.0, "states": states, "rates": rates, "variables": variables, "external_variable": ext}[p])
     f(*args)
-for fn in ("initialise_variables", "compute_computed_constants", "compute_rates", "compute_variables"):
-    call(fn)
+for ph, fn in enumerate(("initialise_variables", "compute_computed_constants", "compute_rates", "compute_variables")):
+    call(fn, ph)
 if ode:
     for i in range(model.STATE_COUNT):
         print("VAL S %d %s" % (i, fmt(states[i])))
         print("VAL R %d %s" % (i, fmt(rates[i])))
 for i in range(model.VARIABLE_COUNT):
     print("VAL V %d %s" % (i, fmt(variables[i])))
+if HAS_PLAN and used_ext:
+    step = 1
+    call("compute_rates", 4)
+    call("compute_variables", 5)
+    if ode:
+        for i in range(model.STATE_COUNT):
+            print("VAL2 S %d %s" % (i, fmt(states[i])))
+            print("VAL2 R %d %s" % (i, fmt(rates[i])))
+    for i in range(model.VARIABLE_COUNT):
+        print("VAL2 V %d %s" % (i, fmt(variables[i])))
 print("DONE")
 )PY";
     int rc = sh("cd " + dir + " && timeout 30 python3 main.py > out.txt 2> err.txt");
@@ -415,10 +469,11 @@ J genRunToJson(const GenRun &r)
         return a;
     };
     j.set("states", vals(r.states)).set("rates", vals(r.rates)).set("variables", vals(r.variables)).set("infoFits", J(r.infoFits));
+    j.set("hasSecondStep", J(!r.variables2.empty() || !r.states2.empty()));
     J ext = J::arr();
     for (auto &c : r.extCalls) {
         J o = J::obj();
-        o.set("index", J(static_cast<long long>(c.index)));
+        o.set("index", J(static_cast<long long>(c.index))).set("phase", J(c.phase));
         J d = J::arr();
         for (int k : c.definedVariables) {
             d.push(J(k));
